@@ -66,7 +66,9 @@ class RerunMon(Monitor):
             down = descendants(m0, roots0)
             for jn in down:
                 if jn in m0.tasks and m0.tasks[jn].join is not None:
-                    if any(i in down and i not in roots0 and (i, jn) in sat for i in m0.inbound(jn)):
+                    # (also a requested task itself, when its first pass had a satisfied transition into the join - e.g. a task
+                    # the provider canceled, with `when not succeeded()`: the arrival of its superseded record stays staged)
+                    if any(i in down and (i, jn) in sat and (i not in roots0 or reqs0 is not None) for i in m0.inbound(jn)):
                         run.tags.add("rerun_join_stale_inbound")
         if ev["post"]["status"] != "resuming":
             run.viol("C17", "not_resuming_after_rerun", "status after an accepted rerun is %s" % ev["post"]["status"],
